@@ -427,7 +427,7 @@ def exDb : List (Series Int) :=
   [⟨[("__name__", "m0"), ("a", "x")], [⟨10, 1, false⟩, ⟨20, 2, false⟩]⟩,
    ⟨[("__name__", "m1"), ("a", "x")], [⟨110, 1, false⟩, ⟨120, 5, false⟩]⟩]
 def exExpr : Expr Int :=
-  .rfn .idelta 20 [⟨"__name__", .re, "", .alt (.lit "m0".toList) (.lit "m1".toList)⟩] 0
+  .rfn .idelta 20 [⟨"__name__", .re, "", .alt (.lit "m0".toList) (.lit "m1".toList)⟩] 0 none
 
 def isOk {α : Type} (r : Except Err α) : Bool := (okOf r).isSome
 
